@@ -364,12 +364,12 @@ def standard_build(chk: Check, gens, targets, theorems, prop_files, src=None):
     reported as that tie and does not hide the state of the other theorems."""
     drv = None
     with BuildLock():
-        if src and 'funcs' not in gens:
+        if src and src.get('funcs', True) and 'funcs' not in gens:
             gens = list(gens) + ['funcs']
         rg = regen(gens)
         for g, err in rg.items():
             chk.oblige(f'translate:{g}', 'translation', err is None, err or 'regenerated from ' + str(REPO))
-        if src:
+        if src and src.get('funcs', True):
             # function bodies are translated one by one: a body outside the translator's subset breaks the ties of the properties that
             # mention it (and only those)
             try:
@@ -420,15 +420,17 @@ def standard_build(chk: Check, gens, targets, theorems, prop_files, src=None):
                 if lf in bad:
                     sbad = sbad | {f'{lf}:{n}' for n in map(str, bad[lf])}
             saud = audit(chk.id, src['theorems'], src['module']) if (ok or (bool(bad) and not other_bad and not sbad)) else {}
+            skind = src.get('kind', 'source-tie')
             for t in src['theorems']:
                 if t in sbad:
-                    chk.oblige(f'theorem:{t}', 'source-tie', False,
+                    chk.oblige(f'theorem:{t}', skind, False,
+                               'does not compile against the regenerated definitions' if skind != 'source-tie' else
                                'the function body regenerated from the source no longer equals the model function (tie does not compile)')
                 elif t in saud:
                     a_ok, ax = saud[t]
-                    chk.oblige(f'theorem:{t}', 'source-tie', a_ok, f'axioms={ax}')
+                    chk.oblige(f'theorem:{t}', skind, a_ok, f'axioms={ax}')
                 else:
-                    chk.oblige(f'theorem:{t}', 'source-tie', False, 'not checked: ' + (', '.join(sorted(map(str, sbad))) or 'a dependency failed to build'))
+                    chk.oblige(f'theorem:{t}', skind, False, 'not checked: ' + (', '.join(sorted(map(str, sbad))) or 'a dependency failed to build'))
             extra = sbad - set(src['theorems'])
             if extra:
                 chk.oblige('source-tie-file', 'source-tie', False, f'declarations failing in {src_file}: {sorted(map(str, extra))}')
